@@ -16,6 +16,7 @@ import (
 // directory operation once the writer is open.
 type FaultPlan struct {
 	Sticky bool // offer "fails until cleared" in addition to the transient faults
+	Settle bool // the background work comes to rest (under faults) after every batch, so that file merges run while faults are offered
 }
 
 // RunFaulty runs a single sequential client (safe mode) while every
@@ -43,6 +44,7 @@ func RunFaulty(name string, sc Scenario, mode Mode, plan FaultPlan, opts verifmc
 	}
 	var clk harness.Clock
 	asyncErrs := 0
+	batchErrs := 0
 	injected := 0
 	injectedLoud := 0 // faults that must be reported asynchronously
 	enabled := false
@@ -75,7 +77,8 @@ func RunFaulty(name string, sc Scenario, mode Mode, plan FaultPlan, opts verifmc
 		if op == "persist" || op == "load" {
 			injectedLoud++
 		}
-		injLog = append(injLog, fmt.Sprintf("%s%s:%d", op, kind, c))
+		injLog = append(injLog, fmt.Sprintf("%s%s#%d:%d", op, kind, id, c))
+		res.Counts[fmt.Sprintf("fault_%s%s#%d", op, kind, id)]++
 		if plan.Sticky && (op == "persist" || op == "load") && c == n-1 {
 			sticky = op
 			if op == "persist" {
@@ -100,9 +103,21 @@ func RunFaulty(name string, sc Scenario, mode Mode, plan FaultPlan, opts verifmc
 			verifmc.Fail("open: " + err.Error())
 		}
 		enabled = true
-		var heldReader *bluge.Reader
-		heldFirst := ""
+		type heldR struct {
+			r     *bluge.Reader
+			first string
+			after int
+		}
+		var held []*heldR
 		ids := []string{"a", "b", "c", "z"}
+		recheck := func(when string) {
+			for _, h := range held {
+				now, oerr := harness.ObserveFull(h.r, ids)
+				if oerr != nil || now != h.first {
+					verifmc.Fail(fmt.Sprintf("the reader acquired after batch %d changed or failed %s (faults so far: %v): %v\n first: %s\n now:   %s", h.after, when, injLog, oerr, h.first, now))
+				}
+			}
+		}
 		for i, spec := range batches {
 			recs[i].spec = spec
 			recs[i].call = clk.Tick()
@@ -112,12 +127,16 @@ func RunFaulty(name string, sc Scenario, mode Mode, plan FaultPlan, opts verifmc
 			recs[i].err = err
 			dir.Mark("ret", i, err)
 			if err != nil {
+				// (the persister hands the error to the waiting batch before it calls the asynchronous
+				// error callback: "and the callback fires" is checked once the writer came to rest)
 				res.Flags["a_batch_returned_the_error"] = true
-				if asyncErrs == 0 {
-					verifmc.Fail(fmt.Sprintf("batch %d returned %q but the asynchronous error callback never fired", i, err.Error()))
-				}
+				batchErrs++
+			}
+			if plan.Settle {
+				verifmc.Idle("settle")
 			}
 			// open and new readers keep answering according to the batches applied so far
+			recheck(fmt.Sprintf("after batch %d", i))
 			r, rerr := w.Reader()
 			if rerr != nil {
 				verifmc.Fail("reader: " + rerr.Error())
@@ -129,27 +148,28 @@ func RunFaulty(name string, sc Scenario, mode Mode, plan FaultPlan, opts verifmc
 			if c != models[i+1] {
 				verifmc.Fail(fmt.Sprintf("after batch %d (returned %v; faults so far: %v) a fresh reader shows {%s}, applied so far is {%s}", i, err, injLog, c, models[i+1]))
 			}
-			if heldReader == nil {
-				heldReader = r
-				heldFirst, oerr = harness.ObserveFull(r, ids)
-				if oerr != nil {
-					verifmc.Fail("held reader: " + oerr.Error())
-				}
-			} else {
-				_ = r.Close()
-				now, oerr := harness.ObserveFull(heldReader, ids)
-				if oerr != nil || now != heldFirst {
-					verifmc.Fail(fmt.Sprintf("the held reader changed or failed after batch %d (faults so far: %v): %v\n first: %s\n now:   %s", i, injLog, oerr, heldFirst, now))
-				}
+			first, oerr := harness.ObserveFull(r, ids)
+			if oerr != nil {
+				verifmc.Fail("held reader: " + oerr.Error())
 			}
+			held = append(held, &heldR{r: r, first: first, after: i}) // every reader stays open
 		}
+		// the background work comes to rest, the writer is closed: the readers still answer
+		verifmc.Idle("quiesce")
 		enabled = false
 		sticky = ""
-		if heldReader != nil {
-			_ = heldReader.Close()
+		recheck("after the background work came to rest")
+		if st := w.VerifIndexWriter().Stats(); st.TotFileMergeLoopErr > 0 {
+			res.Counts["executions_with_a_failed_file_merge"]++
 		}
 		if err := w.Close(); err != nil {
 			verifmc.Fail("close: " + err.Error())
+		}
+		recheck("after the writer was closed")
+		for k := len(held) - 1; k >= 0; k-- { // youngest first: the oldest readers are the last holders
+			_ = held[k].r.Close()
+			held = held[:k]
+			recheck("after a younger reader was closed")
 		}
 	})
 	res.Counts["faults_injected"] = int64(injected)
@@ -169,6 +189,10 @@ func RunFaulty(name string, sc Scenario, mode Mode, plan FaultPlan, opts verifmc
 	}
 	if len(dir.Problems) > 0 {
 		res.Failure = "storage discipline: " + strings.Join(dir.Problems, "; ")
+		return s, res
+	}
+	if batchErrs > 0 && asyncErrs == 0 {
+		res.Failure = fmt.Sprintf("a batch returned an error (faults %v) but the asynchronous error callback never fired", injLog)
 		return s, res
 	}
 	if injectedLoud > 0 && asyncErrs == 0 {
